@@ -613,6 +613,10 @@ impl Exec {
                 fail(format!("C03: code running inside a signal handler frame {}", b));
             }
         }
+        if self.log.len() > 2_000_000 {
+            self.log.push(ev);
+            fail("livelock: more than 2 million events in one execution (a loop that makes no scheduling step)".into());
+        }
         if let Some(mut m) = self.monitor.take() {
             let r = m.on_event(self, &ev);
             self.monitor = Some(m);
@@ -1054,6 +1058,15 @@ fn hook_pre(op: &shim::Op) -> u32 {
             schedule(t);
         } else {
             e.skipped_ops += 1;
+            if e.steps > e.opts.horizon {
+                let in_handler = handler_depth() > 0 && e.handler_discipline;
+                fail(format!(
+                    "{}: step horizon {} exceeded (thread {} '{}' at {}:{}, looping on a thread-private location{})",
+                    if in_handler { "C03" } else { "livelock" },
+                    e.opts.horizon, t, e.threads[t].name, op.file, op.line,
+                    if in_handler { "; inside a signal handler frame that does not finish" } else { "" }
+                ));
+            }
         }
     }
     let e = exec();
